@@ -15,6 +15,7 @@ import numpy as np
 from .. import core, gen
 
 ID = 'C08'
+FOUNDATIONS = ['harness.foundation.cscalar']   # ties of the C++ helper functions the model rests on (generated from their text)
 LEVEL = 'other'
 RULE = ('corpus; accessor-model cases: random 1-4 D shapes x random element strides (negative, zero, non-monotone, offsets) '
         'compared with numpy as_strided and with the compiled iterator through labeled_sum; sweep: every registered public '
